@@ -35,7 +35,10 @@ Trees ==
   \cup {AMultiHash(<<[k |-> KeyA, v |-> l], [k |-> KeyB, v |-> r]>>) : l \in Small, r \in Small}
   \cup {AMultiHash(<<[k |-> KeyB, v |-> l], [k |-> KeyB, v |-> r]>>) : l \in {AIdentity}, r \in Small}
 
-Docs == Univ(Atoms, DEPTH, 2)
+(* depth 1: all eight atoms; depth 2: five of them (one of each kind that evaluation treats differently, both truth values of a
+   number-free kind), which keeps the exhaustive run at ~16 million states; the depth-1 configuration is run as well *)
+DocAtoms == IF DEPTH >= 2 THEN {JNull, JTrue, JInt(0), JInt(1), JStr(<<97>>)} ELSE Atoms
+Docs == Univ(DocAtoms, DEPTH, 2)
 
 Init == ast \in Trees /\ doc \in Docs /\ stage = 0
 Next == /\ stage = 0
